@@ -125,3 +125,66 @@ class _client_bidding:
         return True if not local_assigned(frame, 'env') else disj(
             not local_assigned(frame, 'bidding_phase_state'),
             frame.env._BiddingPhase__active_player is not self.player)
+
+
+# ---- the play mirror -----------------------------------------------------------------------------
+
+from bridge_env.playing_phase import ObservedPlayingPhase
+from pyvc.dsl import Card as CardS
+from pyvc.speclib import card_in, forall
+from contracts.playing import OPPShape, ob_inv, step_ok
+
+# the bundled playing policy (C06): RandomPlay.play returns a playable card of the given hand
+
+
+def _cp_outer_inv(self, contract, declarer, dummy, env):
+    return conj(client_inv(self), ob_inv(env), same(env.contract, contract),
+                env._player is self.player, env._hand is self.hand_set,
+                declarer is env.declarer, dummy is env.dummy)
+
+
+def _cp_inner_inv(self, contract, declarer, dummy, env, idx):
+    return conj(client_inv(self), ob_inv(env), same(env.contract, contract),
+                env._player is self.player, env._hand is self.hand_set,
+                declarer is env.declarer, dummy is env.dummy)
+
+
+def _cp_card_step(self, iter, env, card, dummy, declarer):
+    """C11: every iteration applies exactly one play to the replica, by the seat whose turn it is:
+    the client's own card (also sent as '<me> plays <card>'), dummy's card when the client is
+    declarer (sent as '<dummy> plays <card>'), or the card parsed from the one message received,
+    parsed as a play of the seat on turn."""
+    a = iter.env.active_player
+    me = self.player
+    i_play = conj(a is me, me is not dummy)
+    i_play_dummy = conj(a is dummy, me is declarer)
+    return conj(step_ok(env, iter.env, card),
+                implies(i_play, sent(self)[-1] == line(G.FORMAL[me] + ' plays ' +
+                                                       G.RANK_TEXT[card.rank] + PR.SUIT_LETTER[card.suit])),
+                implies(i_play_dummy, sent(self)[-1] == line(G.FORMAL[dummy] + ' plays ' +
+                                                             G.RANK_TEXT[card.rank] +
+                                                             PR.SUIT_LETTER[card.suit])))
+
+
+@contract('bridge_env.network_bridge.client.Client.playing_phase', props=P)
+class _client_playing:
+    params = dict(contract=ContractS)
+    raises = {Exception: 'onlyif', AssertionError: 'onlyif', ValueError: 'onlyif'}
+    exc_havoc = True
+    modifies = ['self.connection_socket', 'self.hand_set']
+    loops = {0: LoopContract(invariant=_cp_outer_inv,
+                             havoc=dict(hand_open=Bool()),
+                             havoc_heap={'env': OPPShape, 'self.hand_set': CardSet(),
+                                         'self.connection_socket': Ext('socket', dict(
+                                             pos=Int(0), sent=TraceReset()))}),
+             1: LoopContract(invariant=_cp_inner_inv,
+                             havoc=dict(hand_open=Bool()),
+                             havoc_heap={'env': OPPShape, 'self.hand_set': CardSet(),
+                                         'self.connection_socket': Ext('socket', dict(
+                                             pos=Int(0), sent=TraceReset()))},
+                             body_ensures=dict(one_play_per_turn=_cp_card_step))}
+    note = ('the replica is an ObservedPlayingPhase at the client\'s seat fed every public play; that '
+            'it then agrees with the manager is the in-process lemma C11-observer-follows-manager')
+
+    def requires_a_real_contract(self, contract):
+        return conj(valid_contract(contract), not passed_out(contract), contract.declarer is not None)
